@@ -3,6 +3,7 @@ import Mimic.Extracted.Catalog
 import Mimic.Extracted.LikeCode
 import MimicProofs.Like
 import MimicProofs.HandlersCode
+import MimicProofs.CommandLoop
 /-!
 # C16 — Catalog answers mirror the application's declared schema exactly
 
@@ -339,6 +340,35 @@ theorem field_list_is_code (E : Mimic.Py.Env S) (app : S → Option (ResultSet S
             = if rs.rows.boom then .error { c with out := sent }
               else .ok { c with out := sent ++ [Ev.write (ok_or_eof c a l w fl) true] } :=
   handle_field_list_spec E app fls fcd c data
+
+open MimicProofs.CommandLoop in
+/-- **A whole COM_FIELD_LIST exchange on the code** (one iteration of the generated command loop on `0x04 · payload`): one
+    column definition per row of the catalog's answer — every one of them, in the catalog's order, none twice —, then exactly one
+    terminator; exactly one ERR instead when the payload does not parse or the catalog statement is rejected, and exactly one ERR
+    after the definitions sent so far iff the row source raised; the loop goes on. -/
+theorem code_field_list_exchange (E : Mimic.Py.Env S) (cp : S → Nat) (pc : Nat → Mimic.Py.Bytes) (coldef : Nat → Nat → Mimic.Py.Bytes)
+    (parse : Connection S → Mimic.Py.Bytes → Option (ComStmtExecute S)) (app : S → Option (ResultSet S))
+    (ur : S → Bool) (fls : Mimic.Extracted.ParsersCode.ComFieldList S → S) (fcd : Nat → S → Mimic.Py.Bytes → Mimic.Py.Bytes)
+    (other : Nat → Connection S → Mimic.Py.Bytes → Except (Connection S) (Connection S)) (err : Connection S → Mimic.Py.Bytes) (af : Nat → Connection S → Mimic.Py.Bytes → Option (Connection S))
+    (c : Connection S) (rest : Mimic.Py.Bytes) :
+    let c1 : Connection S := { c with _executing := true }
+    match Mimic.Extracted.ParsersCode.parse_com_field_list E c.client_charset rest with
+    | none => command_step E cp pc coldef parse app ur fls fcd other err af c (4 :: rest)
+        = ({ c with _executing := false, out := c.out ++ [Ev.write (err { c with _executing := false }) true, Ev.reset_seq] }, true)
+    | some f =>
+      match app (fls f) with
+      | none => command_step E cp pc coldef parse app ur fls fcd other err af c (4 :: rest)
+          = ({ c with _executing := false, out := c.out ++ [Ev.write (err { c with _executing := false }) true, Ev.reset_seq] }, true)
+      | some rs =>
+        ∃ (a l w fl : Nat),
+          let defs := rs.rows.rows.map (fun r => Ev.write (fcd c.server_charset f.table r) false)
+          command_step E cp pc coldef parse app ur fls fcd other err af c (4 :: rest)
+            = if rs.rows.boom then
+                ({ c with _executing := false,
+                          out := c.out ++ defs ++ [Ev.write (err { c with _executing := false, out := c.out ++ defs }) true, Ev.reset_seq] }, true)
+              else
+                ({ c with _executing := false, out := c.out ++ defs ++ [Ev.write (ok_or_eof c1 a l w fl) true, Ev.reset_seq] }, true) :=
+  field_list_exchange E cp pc coldef parse app ur fls fcd other err af c rest
 
 end handlers
 
